@@ -78,6 +78,7 @@ def main(argv=None):
     ap.add_argument('--tests', action='store_true')
     ap.add_argument('--seeded', action='store_true')
     ap.add_argument('--verbose', action='store_true')
+    ap.add_argument('--record', action='store_true', help='with --seeded: write the verdict into seeded/<id>/meta.json (detected_by)')
     a = ap.parse_args(argv)
     jobs = []
     if a.seeded:
@@ -114,6 +115,13 @@ def main(argv=None):
                 missed += 1
             keys = [l.strip() for l in out.splitlines() if l.strip().startswith('clause:')]
             print(f'{prop} {name:40s} {verdict}{tests}  {keys[0][:150] if keys else ""}')
+            if a.record and a.seeded and kind == 'diff':
+                mp = payload.parent / 'meta.json'
+                meta = json.loads(mp.read_text())
+                allkeys = sorted({k.split('key: ')[1].split('  occurrences')[0] for k in keys if 'key: ' in k})
+                meta['detected_by'] = {'check': f'python -m vf.check {prop} --tier {a.tier}', 'verdict': verdict,
+                                       'violation_keys': allkeys[:12]}
+                mp.write_text(json.dumps(meta, indent=1) + '\n')
             if a.verbose or rc not in (0, 1):
                 print(out[-1500:])
         finally:
